@@ -814,6 +814,24 @@ def own_args(ctx: Ctx) -> RuleResult:
         if not ok:
             r.violate(f"{f.short}: arguments/cached values are force-written into '{norm_src(n.func.value)}' which is not a copy made here",
                       f.loc(n), "the defaults and constants of the DAG instance are overwritten for every later call", str(c))
+    # every supplied argument is bound, whatever its value: inside the loop over the call's arguments the write is unconditional
+    from .val import reach_conditions
+
+    for f, n in sites:
+        loops = [lp for lp in iter_own_nodes(f.node) if isinstance(lp, ast.For) and any(x is n for x in ast.walk(lp))
+                 and any(isinstance(x, ast.Name) and x.id == (f.node.args.vararg.arg if f.node.args.vararg else "") for x in ast.walk(lp.iter))]
+        for lp in loops:
+            st = next((b for b in own_walk(lp) if isinstance(b, ast.Expr) and b.value is n), None)
+            if st is None:
+                continue
+            inner = reach_conditions(lp, st)
+            vals = {x.id for x in ast.walk(lp.target) if isinstance(x, ast.Name)}
+            dep = [(c_, pol_) for c_, pol_ in (inner or []) if vals & {x.id for x in ast.walk(c_) if isinstance(x, ast.Name)}]
+            r.ob(not dep, {"in": f.short, "argument bound whatever its value": not dep})
+            if dep:
+                r.violate(f"{f.short}: a supplied argument is bound only when {('' if dep[0][1] else 'not ') + norm_src(dep[0][0])}", f.loc(st),
+                          "the value the caller passes is the value the DAG computes with - also None, 0 or '' (an explicit None for a "
+                          "defaulted flag must not turn back into the default)", norm_src(dep[0][0]))
     return r
 
 
@@ -976,6 +994,20 @@ def own_compose(ctx: Ctx) -> RuleResult:
                     r.violate(f"BaseDAG.compose: in-place edit of a node taken from {norm_src(loops[-1].iter)}", f.loc(n),
                               "only the copies owned by the composed DAG may be edited", norm_src(n))
     r.require(edits >= 3, f"compose: only {edits} in-place edits found")
+    # ... and what is edited are the references (rewired to the new inputs) and the callable (restored after the copy): a copied
+    # node keeps every other attribute of the original - resource, priority, is_sequential, setup, debug, tag, unpack_to
+    allowed = {"exec_function", "args", "kwargs", "active"}
+    for g_ in [f] + [x for x in ctx.P.funcs.values() if x.parent is f]:
+        for n in iter_own_nodes(g_.node):
+            if isinstance(n, ast.Call) and dotted(n.func) in ("object.__setattr__", "setattr") and len(n.args) == 3 and isinstance(n.args[1], ast.Constant):
+                fld = n.args[1].value
+                okf = fld in allowed
+                r.ob(okf, {"field set on a copied node": fld, "in": g_.short})
+                if not okf:
+                    r.violate(f"BaseDAG.compose: the copy of a node gets another '{fld}' than the original ({norm_src(n.args[2])})", g_.loc(n),
+                              "the composed DAG computes what the original pipeline would compute: its nodes run where (resource), when "
+                              "(priority, is_sequential) and as what (setup, debug) the original declared - e.g. a main-thread node moved to "
+                              "the pool no longer runs on the invoking thread", norm_src(n))
     # results / exec_nodes handed to the new DAG are built here
     for n in iter_own_nodes(f.node):
         if isinstance(n, ast.Call) and dotted(n.func) in ("DAG", "AsyncDAG"):
@@ -1000,6 +1032,47 @@ def own_compose(ctx: Ctx) -> RuleResult:
     r.ob(okr, {"new results map": norm_src(res[0].value)[:80] if res else None})
     if res and not okr:
         r.violate("BaseDAG.compose: the results map of the composed DAG is not a new map", f.loc(res[0]), "", norm_src(res[0]))
+    return r
+
+
+def own_graphfrozen(ctx: Ctx) -> RuleResult:
+    """The graph of a DAG instance is never edited in place: every operation that needs another graph derives a copy
+    (make_subgraph, deepcopy, extend_graph_with_debug_nodes), re-configuration re-binds the attribute.
+
+    A method that removes or adds nodes / edges on `self.graph_ids` itself (a drawing helper hiding the argument nodes, ...) changes
+    every later call, executor, compose and setup of that instance."""
+    r = RuleResult("OWN-GRAPHFROZEN")
+    mut = ("remove_node", "remove_nodes_from", "remove_edge", "remove_edges_from", "add_node", "add_nodes_from", "add_edge", "add_edges_from",
+           "clear", "clear_edges", "remove_recursively", "remove_root_node", "remove_any_root_node", "add_exec_node", "update")
+    n_reads = 0
+    for cn in DAG_CLASSES:
+        c = ctx.P.classes.get(ctx.cls_q(cn))
+        if c is None:
+            continue
+        for m in c.methods.values():
+            aliases = {"self.graph_ids"}
+            for n in iter_own_nodes(m.node):
+                if isinstance(n, ast.Assign) and len(n.targets) == 1 and isinstance(n.targets[0], ast.Name) and norm_src(n.value) == "self.graph_ids":
+                    aliases.add(n.targets[0].id)
+            for n in iter_own_nodes(m.node):
+                if isinstance(n, ast.Attribute) and norm_src(n) == "self.graph_ids":
+                    n_reads += 1
+                tgt = None
+                if isinstance(n, ast.Call) and isinstance(n.func, ast.Attribute) and n.func.attr in mut and norm_src(n.func.value) in aliases:
+                    tgt = n
+                elif isinstance(n, (ast.Assign, ast.AugAssign)):
+                    for t in (n.targets if isinstance(n, ast.Assign) else [n.target]):
+                        if isinstance(t, ast.Subscript) and isinstance(t.value, ast.Attribute) and norm_src(t.value.value) in aliases:
+                            tgt = n
+                if tgt is not None:
+                    r.ob(False, {"in": m.short, "in-place edit of the DAG's graph": norm_src(tgt)[:100]})
+                    r.violate(f"{m.short}: the DAG's own graph is edited in place ({norm_src(tgt)[:60]})", m.loc(tgt),
+                              "the graph belongs to the instance: after this, calls that omit a required argument no longer fail, compose() "
+                              "and executors derive their sub-graphs from the edited graph - the DAG does not behave like a freshly built one",
+                              norm_src(tgt)[:120])
+    r.require(n_reads >= 5, f"only {n_reads} uses of self.graph_ids found in the DAG classes")
+    if not r.findings:
+        r.ob(True, {"uses of self.graph_ids": n_reads, "in-place edits": 0})
     return r
 
 
@@ -1181,7 +1254,7 @@ def own_execflag(ctx: Ctx) -> RuleResult:
 
 
 RULES = {
-    "OWN-NODEEPVAL": own_nodeepval, "OWN-EXECFLAG": own_execflag,
+    "OWN-GRAPHFROZEN": own_graphfrozen, "OWN-NODEEPVAL": own_nodeepval, "OWN-EXECFLAG": own_execflag,
     "OWN-LIVERESULTS": own_liveresults,
     "OWN-WBCOMPLETE": own_wbcomplete,
     "OWN-RUN": own_run, "OWN-WRITEBACK": own_writeback, "OWN-SETUP": own_setup, "OWN-CONSUME": own_consume, "OWN-ARGS": own_args,
